@@ -276,6 +276,15 @@ SUBJECTS = [
     Subject("ProbCover", "ProbCover", {"cluster_algo_dict": KM}, None, samplewise=False),
     Subject("ContrastiveAL", "ContrastiveAL", {}, "pwc", samplewise=True),
     Subject("Falcun", "Falcun", {}, "pwc", select="sample", samplewise=False),
+    # non-default modes of the constructors
+    Subject("Falcun[gamma=0]", "Falcun", {"gamma": 0}, "pwc", select="sample", samplewise=False),
+    Subject("GreedySamplingTarget[GSi,n_GSx_samples=2]", "GreedySamplingTarget", {"method": "GSi", "n_GSx_samples": 2}, "nic", task="reg",
+            samplewise=True, cost=2),
+    Subject("ProbabilisticAL[m_max=2,prior=0.5]", "ProbabilisticAL", {"m_max": 2, "prior": 0.5}, "pwc", samplewise=True),
+    Subject("UncertaintySampling[least_confident,cost_matrix]", "UncertaintySampling", {"method": "least_confident", "cost_matrix": [[0, 2], [1, 0]]},
+            "pwc", samplewise=True),
+    Subject("ValueOfInformationEER[labeled only]", "ValueOfInformationEER", {"consider_unlabeled": False, "candidate_to_labeled": False}, "pwc",
+            samplewise=True, cost=5),
     Subject("RegressionTreeBasedAL[random]", "RegressionTreeBasedAL", {"method": "random"}, "tree", task="reg", select="sample", cost=2),
     Subject("RegressionTreeBasedAL[diversity]", "RegressionTreeBasedAL", {"method": "diversity"}, "tree", task="reg", select="max", cost=2),
     Subject("RegressionTreeBasedAL[representativity]", "RegressionTreeBasedAL", {"method": "representativity"}, "tree", task="reg",
